@@ -75,6 +75,7 @@ def check(run, tier):
             continue
         # ---- GATE (structure)
         validators = {}
+        gated = {}  # instance id of a constructor already shown to be gated -> its validator
         for r in roots:
             cfgr = CFG(insts[r])
             vcalls = []
@@ -84,6 +85,9 @@ def check(run, tier):
                     ins, out = sig(f, ci)
                     if out == "core::result::Result<(), tz::error::TzError>" and len(ins) == 1 and ins[0].startswith("&tz::timezone::TimeZoneRef"):
                         vcalls.append((bi, ci))
+                    elif ci["id"] in gated:
+                        # validating through the other constructor: its Ok implies its validator's Ok
+                        vcalls.append((bi, gated[ci["id"]]))
             ok = len(vcalls) >= 1 and len({c["id"] for _, c in vcalls}) == 1
             run.obligation(ok)
             if not ok:
@@ -97,6 +101,8 @@ def check(run, tier):
             good = bool(oks) and bool(succ) and all(any(cfgr.dominated_by(b, s) for s in succ) for b in oks)
             run.obligation(good)
             run.sample({"rule": "GATE", "constructor": r, "validator": vcalls[0][1]["name"], "Ok blocks": oks, "validator success edge targets": succ, "dominated": good})
+            if good:
+                gated[insts[r]["id"]] = vcalls[0][1]
             if not good:
                 run.finding("GATE", "%s|%s|ok-not-dominated" % (cfg, r), "%s can return Ok on a path that does not pass the success edge of its validator" % r, insts[r].get("span"))
         if len(validators) == 2:
